@@ -77,6 +77,32 @@ theorem union_first_match (d : Doc) (P : Pattern) (n : Nat) :
   · rintro ⟨p, hp, hne⟩
     exact ⟨_, List.mem_map.mpr ⟨p, hp, rfl⟩, hne⟩
 
+/-- **The per-alternative entry point** `getMatchScore(node, resolver, ctx, theAlternative)` (c733dd4): on
+alternative `i` it is `locationPathPattern` of that alternative (None past the last one), and the union entry point
+is the score of the first alternative whose own score is not None. -/
+theorem alternative_entry_point (d : Doc) (P : Pattern) (i n : Nat) :
+    (getMatchScoreAlt v d P i n = match P[i]? with | some p => lpp v d (compilePath p) n | none => Score.none) ∧
+    getMatchScore v d P n =
+      (((List.range P.length).map fun i => getMatchScoreAlt v d P i n).find? (· != Score.none)).getD Score.none := by
+  have h1 : ∀ i, getMatchScoreAlt v d P i n =
+      match P[i]? with | some p => lpp v d (compilePath p) n | none => Score.none := by
+    intro i
+    unfold getMatchScoreAlt
+    rw [getMatchScoreAltC_eq]
+    simp only [List.getElem?_map]
+    cases P[i]? <;> rfl
+  refine ⟨h1 i, ?_⟩
+  unfold getMatchScore
+  rw [getMatchScoreC_first]
+  congr 2
+  apply List.ext_getElem
+  · simp
+  · intro k hk1 hk2
+    simp only [List.getElem_map, List.getElem_range]
+    rw [h1 k]
+    have : k < P.length := by simpa using hk1
+    simp [List.getElem?_eq_getElem this]
+
 /-- **C09, one-step patterns with any node test (including `node()`).**  Full statement: for every pattern `P`, well-formed document `d` and node `n`,
 `getMatchScore v d P n ≠ None ↔ Spec.matchesPattern d P n`.  Proved here for every union of one-step child-axis
 patterns `T[p1]…[pk]` (any test, any mix of `[k]`, `[last()]`, `[position()=k]`, `[position()!=last()]`, `[@x]`,
